@@ -30,6 +30,22 @@ CHECK_DEADLOCK FALSE
 ''' % maxlen
 
 
+def many_jobs_behaviours():
+    """Behaviours of Discovery.tla with more than ten jobs, written in the order an administrator writes them (not
+    sorted): the simulated behaviours use three jobs; the number of jobs is a dimension of its own."""
+    names = ['node', 'kubelet', 'cadvisor', 'apiserver', 'etcd', 'coredns', 'ingress', 'blackbox', 'mysql', 'redis', 'kafka', 'zookeeper', 'app']
+    grp = lambda i: [dict(bad=False, members=[dict(id=1 + i % 4, drop=False)])]
+    send = lambda js: dict(a='Send', jobs=[], edited=[], upd=[dict(job=j, groups=grp(names.index(j))) for j in js])
+    reload_ = lambda js, ed=(): dict(a='Reload', jobs=list(js), edited=list(ed), upd=[])
+    consume = dict(a='Consume', jobs=[], edited=[], upd=[])
+    out = []
+    for n in (11, 13):
+        js = names[:n]
+        out.append(dict(steps=[reload_(js), send(js), consume, reload_(js), reload_(js, js[:2]), reload_(js[1:]), send(js[1:]), consume, reload_(js[1:])]))
+        out.append(dict(steps=[reload_(js), send(js[:5]), send(js[5:]), consume, consume, reload_(list(reversed(js))), reload_(js[:n - 1])]))
+    return out
+
+
 def check(prop, tier, replay=None):
     t0 = time.time()
     with C.Scratch(prop) as scratch:
@@ -45,7 +61,7 @@ def check(prop, tier, replay=None):
             nsim, depth = (150, 10) if tier == 'quick' else (1500, 16)
             g = C.tlc(sd, 'MCDiscovery', 'sim.cfg', cfg_text=sim_cfg(depth), workers=1, simulate='num=%d' % nsim, depth=depth + 1, timeout=3000)
             C.require_ok(g, 'MCDiscovery generation')
-            C.write_ndjson(beh, C.read_ndjson(beh))
+            C.write_ndjson(beh, C.read_ndjson(beh) + many_jobs_behaviours())
         o1, o2 = os.path.join(sd, 'obs1.ndjson'), os.path.join(sd, 'obs2.ndjson')
         C.run_sharded(kvh, 'discovery', beh, o1)
         # concurrent part: the same behaviours with reader goroutines hammering the getters
